@@ -929,8 +929,10 @@ func (c *Compiler) linkRecursiveCode(ctx *compileContext) {
 		setTotalLengthToInterfaceOp(code)
 
 		// extend length to alloc slot for elemIdx + length
-		curTotalLength := uintptr(recursive.TotalLength()) + 3
-		nextTotalLength := uintptr(totalLength) + 3
+		// the end op's three slots start one past the last slot counted by TotalLength (see above),
+		// so a frame spans TotalLength+4 slots: for the caller's frame and for the recursive frame alike
+		curTotalLength := uintptr(recursive.TotalLength()) + 4
+		nextTotalLength := uintptr(totalLength) + 4
 
 		compiled := recursive.Jmp
 		compiled.Code = code
